@@ -36,7 +36,12 @@ type XObject struct {
 
 // NewXObject returns a new object with the given properties
 func NewXObject(properties map[string]XValue) *XObject {
-	return NewXLazyObject(func() map[string]XValue { return properties })
+	x := NewXLazyObject(func() map[string]XValue { return properties })
+
+	// the properties are already known so initialize now - objects which are shared between sessions, like XObjectEmpty
+	// or the false result of router tests, must not be written to on first use
+	x.ensureInitialized()
+	return x
 }
 
 // NewXLazyObject returns a new lazy object with the source function and default
